@@ -60,6 +60,15 @@ def build_harness(race=False):
     if key in _built:
         return _built[key]
     h = os.path.join(VERIF, "harness")
+    if REPO != "/repo":
+        # development aid (VERIF_REPO, never set by registered commands): judge a scratch clone - e.g. one carrying a seeded change -
+        # while /repo itself stays untouched: the harness is copied and its replace directive pointed at the clone
+        h2 = os.path.join(workdir("harness-src"), "h")
+        if not os.path.isdir(h2):
+            shutil.copytree(h, h2)
+            gm = open(os.path.join(h2, "go.mod")).read().replace("=> /repo", "=> " + REPO)
+            open(os.path.join(h2, "go.mod"), "w").write(gm)
+        h = h2
     shutil.copyfile(os.path.join(REPO, "go.sum"), os.path.join(h, "go.sum"))
     out = os.path.join(workdir("bin"), "vh-" + key)
     env = goenv()
